@@ -2,7 +2,10 @@ package c20
 
 import (
 	"context"
+	"crypto/tls"
 	"fmt"
+	"io"
+	"net"
 	"net/http"
 	"net/url"
 	"os"
@@ -13,6 +16,7 @@ import (
 	"sync"
 	"sync/atomic"
 	"testing"
+	"time"
 
 	"github.com/tmpim/casket/caskethttp/httpserver"
 	"pgregory.net/rapid"
@@ -51,7 +55,14 @@ type Case struct {
 	Wrappers []string `json:"wrappers"`
 	Clients  int      `json:"clients"`
 	Reqs     []Req    `json:"reqs"`
+	// CaseSensitive: the process runs with CASE_SENSITIVE_PATH=1 (path scopes compare letter case)
+	CaseSensitive bool `json:"case_sensitive,omitempty"`
+	// H2: the site is an HTTPS site (self-signed) and the clients speak HTTP/2
+	H2 bool `json:"h2,omitempty"`
 }
+
+// set for the case being run (cases run one after the other)
+var caseSensitive bool
 
 // every format starts with the join key and the fields under test, in a fixed, parseable shape
 var formats = []string{
@@ -83,7 +94,11 @@ func workdir(n int64) string {
 
 func casketfile(c *Case, dir string) string {
 	var sb strings.Builder
-	fmt.Fprintf(&sb, "http://localhost:0 {\n\troot %s\n", dir)
+	if c.H2 {
+		fmt.Fprintf(&sb, "https://localhost:0 {\n\ttls self_signed\n\troot %s\n", dir)
+	} else {
+		fmt.Fprintf(&sb, "http://localhost:0 {\n\troot %s\n", dir)
+	}
 	for i, l := range c.Logs {
 		fmt.Fprintf(&sb, "\tlog %s %s/log%d.txt \"%s\"", l.Scope, dir, i, strings.ReplaceAll(formats[l.Fmt], `"`, `\"`))
 		if len(l.Except) > 0 {
@@ -110,6 +125,9 @@ func pathMatches(p, base string) bool {
 	}
 	if bt {
 		base += "/"
+	}
+	if caseSensitive {
+		return strings.HasPrefix(p, base)
 	}
 	return strings.HasPrefix(strings.ToLower(p), strings.ToLower(base))
 }
@@ -141,6 +159,9 @@ func runCase(c *Case) (nontrivial int, err error) {
 	dir := workdir(atomic.AddInt64(&seq, 1))
 	defer os.RemoveAll(dir)
 	cf := casketfile(c, dir)
+	caseSensitive = c.CaseSensitive
+	httpserver.CaseSensitivePath = c.CaseSensitive
+	defer func() { httpserver.CaseSensitivePath, caseSensitive = false, false }()
 	inst, e := srv.Start(cf, "")
 	if e != nil {
 		srv.Stop(inst)
@@ -152,7 +173,24 @@ func runCase(c *Case) (nontrivial int, err error) {
 			srv.Stop(inst)
 		}
 	}()
-	addr := srv.Loopback(srv.Addrs(inst)[0])
+	addr := ""
+	for _, a := range srv.Addrs(inst) {
+		if srv.PortOf(a) != "80" { // an HTTPS site also gets a redirect listener on :80
+			addr = srv.Loopback(a)
+		}
+	}
+	if addr == "" {
+		return 0, fmt.Errorf("HARNESS: no listener among %v", srv.Addrs(inst))
+	}
+	var h2 *http.Client
+	if c.H2 {
+		tr := &http.Transport{TLSClientConfig: &tls.Config{InsecureSkipVerify: true, ServerName: "localhost", NextProtos: []string{"h2"}}, ForceAttemptHTTP2: true, DisableCompression: true,
+			DialContext: func(ctx context.Context, network, _ string) (net.Conn, error) {
+				return (&net.Dialer{Timeout: 5 * time.Second}).DialContext(ctx, network, addr)
+			}}
+		defer tr.CloseIdleConnections()
+		h2 = &http.Client{Transport: tr, Timeout: 20 * time.Second, CheckRedirect: func(*http.Request, []*http.Request) error { return http.ErrUseLastResponse }}
+	}
 
 	obs := make([]observed, len(c.Reqs))
 	var wg sync.WaitGroup
@@ -182,12 +220,37 @@ func runCase(c *Case) (nontrivial int, err error) {
 				if r.AE != "-" {
 					hdr = append(hdr, [2]string{"Accept-Encoding", r.AE})
 				}
-				resp, err := srv.Once(addr, r.Method, srv.Request(r.Method, r.Path, "localhost", hdr, nil))
-				probe.Take(id)
 				o := observed{id: id, evil: r.Evil, method: r.Method}
-				if err == nil {
-					o.status, o.size, o.done = resp.Status, len(resp.Body), true
+				var err error
+				if h2 != nil {
+					var req *http.Request
+					req, err = http.NewRequest(r.Method, "https://localhost"+r.Path, nil)
+					if err == nil {
+						for _, kv := range hdr {
+							if kv[0] != "Connection" {
+								req.Header.Set(kv[0], kv[1])
+							}
+						}
+						var resp *http.Response
+						if resp, err = h2.Do(req); err == nil {
+							var body []byte
+							body, err = io.ReadAll(resp.Body)
+							resp.Body.Close()
+							if err == nil && resp.ProtoMajor != 2 {
+								err = fmt.Errorf("HARNESS: response over %s, wanted HTTP/2", resp.Proto)
+							}
+							o.status, o.size, o.done = resp.StatusCode, len(body), err == nil
+						}
+					}
 				} else {
+					var resp *srv.Resp
+					resp, err = srv.Once(addr, r.Method, srv.Request(r.Method, r.Path, "localhost", hdr, nil))
+					if err == nil {
+						o.status, o.size, o.done = resp.Status, len(resp.Body), true
+					}
+				}
+				probe.Take(id)
+				if err != nil {
 					firstErr.CompareAndSwap(nil, fmt.Sprintf("request %d %+v: no well-formed response: %v", i, r.Path, err))
 				}
 				obs[i] = o
@@ -199,6 +262,9 @@ func runCase(c *Case) (nontrivial int, err error) {
 		return 0, fmt.Errorf("%s", v.(string))
 	}
 	// barrier: Stop drains the handlers, then the files are complete
+	if h2 != nil {
+		h2.CloseIdleConnections() // an idle HTTP/2 connection would keep the graceful stop waiting
+	}
 	srv.Stop(inst)
 	stopped = true
 
@@ -259,7 +325,11 @@ func runCase(c *Case) (nontrivial int, err error) {
 			case 1:
 				wantRest += " {literal} - " + requestURI(r.Path)
 			case 2:
-				wantRest += " HTTP/1.1 verif/1.0"
+				if c.H2 {
+					wantRest += " HTTP/2.0 verif/1.0"
+				} else {
+					wantRest += " HTTP/1.1 verif/1.0"
+				}
 			}
 			if f[4] != wantRest {
 				return nontrivial, fmt.Errorf("%s: rest of line is %q, want %q (request text must appear verbatim, unknown placeholders as '-', escaped braces literal)", desc, f[4], wantRest)
@@ -295,8 +365,8 @@ func requestURI(target string) string {
 	return u.RequestURI()
 }
 
-var scopes = []string{"/", "/api", "/api/v1", "/static", "/p"}
-var reqPaths = []string{"/", "/api", "/api/x", "/api/v1/y", "/API/v1/y", "/static/a.css", "/p/x.html", "/p/x", "/other", "/api//v1/z", "/x/../api/w", "/api/v1/y?q={status}&r=1", "/p/x?a=\\{b\\}"}
+var scopes = []string{"/", "/api", "/api/v1", "/static", "/p", "/API", "/Static", "/api/V1"}
+var reqPaths = []string{"/", "/api", "/api/x", "/api/v1/y", "/API/v1/y", "/static/a.css", "/Static/a.css", "/api/V1/q", "/p/x.html", "/p/x", "/other", "/api//v1/z", "/x/../api/w", "/api/v1/y?q={status}&r=1", "/p/x?a=\\{b\\}"}
 var evils = []string{"", "", "plain", "{status}", "{>Cookie}", "{size} {method}", `\{x\}`, "{", "}", "}{", "{>X-Evil}", "{~session}", "{?q}", "a b  c", "{nosuch}", `\`, `{\}`, "{{status}}"}
 
 func genReq(t *rapid.T, lb string) Req {
@@ -328,12 +398,15 @@ func genReq(t *rapid.T, lb string) Req {
 			}
 		}
 	}
+	if r.Kind == "written" {
+		s.Copy = rapid.IntRange(0, 2).Draw(t, lb+"copy") == 0 // the body is sent with io.Copy, as a file would be
+	}
 	r.Script = s
 	return r
 }
 
 func genCase(t *rapid.T) *Case {
-	c := &Case{}
+	c := &Case{CaseSensitive: rapid.IntRange(0, 3).Draw(t, "cs") == 0, H2: rapid.IntRange(0, 3).Draw(t, "h2") == 0}
 	nl := rapid.IntRange(1, 3).Draw(t, "nlogs")
 	for i := 0; i < nl; i++ {
 		lb := fmt.Sprintf("l%d", i)
